@@ -95,8 +95,16 @@ theorem unmarshal_marshal (w0 w : WFN) (hv : valid w = .ok) (hl : w.length = 11)
     exact h
 
 theorem unmarshal_marshal_unset (w0 w : WFN) (hv : valid w = .errUnset) :
-    (marshalText w).bind (unmarshalText w0) = some w0 := by
+    (marshalText w).bind (unmarshalText w0) = some (List.replicate 11 unsetValue) := by
   simp [marshalText, hv, unmarshalText]
+
+theorem scan_marshal_unset (w0 w : WFN) (hv : valid w = .errUnset) :
+    (marshalText w).bind (scanText w0) = some w0 := by
+  simp [marshalText, hv, scanText]
+
+/-- `Scan` and `UnmarshalText` differ on the empty input only. -/
+theorem scanText_eq_unmarshalText (w0 : WFN) (b : Str) (h : b ≠ []) : scanText w0 b = unmarshalText w0 b := by
+  simp [scanText, unmarshalText, h]
 
 /-- Every value of a valid name is ASCII (below 0x7F). -/
 theorem valid_ascii (w : WFN) (hv : valid w = .ok) : ∀ a ∈ w, ∀ c ∈ a.v, c < 127 := by
